@@ -32,6 +32,16 @@ from .symbols import (
 from ..schema import extract_record_type
 
 
+def _needs_no_call(symbol):
+    """True for the grammar of a value that is read or written without a
+    single call: actions only, however they are nested"""
+    if isinstance(symbol, Action):
+        return True
+    return isinstance(symbol, Sequence) and all(
+        _needs_no_call(inner) for inner in symbol.production
+    )
+
+
 class Parser:
     def __init__(self, schema, named_schemas, action_function):
         self.schema = schema
@@ -161,6 +171,13 @@ class Parser:
             else:
                 self.stack.extend(top.production)
 
+    def start_value(self):
+        """Makes the grammar of the next top level value current (`advance`
+        does this by itself, but a value that needs no call at all, a record
+        without fields, never gets there)"""
+        if isinstance(self.stack[-1], Root):
+            self.stack.extend(self.stack.pop().production)
+
     def drain_actions(self):
         while True:
             top = self.stack.pop()
@@ -178,8 +195,16 @@ class Parser:
     def run_pending_actions(self):
         """Runs the actions on top of the stack (e.g. the RecordEnd actions of
         a value that has just been read completely)"""
-        while self.stack and isinstance(self.stack[-1], Action):
-            self.action_function(self.stack.pop())
+        while self.stack:
+            top = self.stack[-1]
+            if isinstance(top, Action):
+                self.action_function(self.stack.pop())
+            elif _needs_no_call(top):
+                # a record without fields (or whose fields are such records):
+                # reading it made no call, so it has not been expanded yet
+                self.stack.extend(self.stack.pop().production)
+            else:
+                break
 
     def pop_symbol(self):
         return self.stack.pop()
